@@ -81,7 +81,7 @@ func (v *valueBigInt) Equals(other Value) bool {
 		}
 		return bigInt.Cmp((*big.Int)(v)) == 0
 	case valueBool:
-		return (*big.Int)(v).Int64() == o.ToInteger()
+		return (*big.Int)(v).IsInt64() && (*big.Int)(v).Int64() == o.ToInteger()
 	case *Object:
 		return v.Equals(o.toPrimitiveNumber())
 	}
